@@ -30,6 +30,10 @@
                                     `Signature.bind`, undeclared keywords against the *inherited*
                                     `_additional_properties`, Constants, then `construct` of
                                     Sem/Validate.lean on `toStruct`
+  * `Entry`, `instantiateVia O c ord e kw` — every class-level way of obtaining an instance
+                                    (constructor, from_other_class, cast_to, trust flag,
+                                    from_trusted_data, trusted deserialization): all of them refuse
+                                    an abstract class
   * `assignField O c name v`     — `inst.name = v` on a fresh instance
 
   Nested Structure-class fields are `FieldDecl.struct` trees already (the wire form inlines the
@@ -136,6 +140,60 @@ def instantiateOrd (O : Oracles) (c : ClassDef) (reqOrder : List String) (kw : L
 
 def instantiate (O : Oracles) (c : ClassDef) (kw : List (String × PyVal)) : R PyVal :=
   instantiateOrd O c c.sig.req kw
+
+/-- the class-level ways of obtaining an instance of a class -/
+inductive Entry where
+  /-- `cls(**kw)` -/
+  | ctor
+  /-- `cls.from_other_class(mapping)` -/
+  | fromOther
+  /-- `instance_of_a_subclass.cast_to(cls)` -/
+  | castTo
+  /-- `cls.trust_supplied_values(True); cls(**kw)` -/
+  | trustFlag
+  /-- `cls.from_trusted_data(**kw)` -/
+  | trustedKw
+  /-- `cls.from_trusted_data(mapping)` -/
+  | trustedMap
+  /-- `Deserializer(cls).deserialize(mapping, direct_trusted_mapping=True)` -/
+  | deserTrusted
+deriving Repr, DecidableEq, Inhabited
+
+namespace Entry
+def all : List Entry := [.ctor, .fromOther, .castTo, .trustFlag, .trustedKw, .trustedMap, .deserTrusted]
+/-- the entry validates the values (the others store them as supplied) -/
+def validates : Entry → Bool
+  | .ctor => true
+  | .fromOther => true
+  | .castTo => true
+  | _ => false
+def name : Entry → String
+  | .ctor => "ctor" | .fromOther => "fromOther" | .castTo => "castTo" | .trustFlag => "trustFlag"
+  | .trustedKw => "trustedKw" | .trustedMap => "trustedMap" | .deserTrusted => "deserTrusted"
+end Entry
+
+/-- the arguments `cast_to` hands to the constructor: the attributes that are field names, not
+    Constants and not None -/
+def fieldArgs (c : ClassDef) (kw : List (String × PyVal)) : List (String × PyVal) :=
+  kw.filter fun a => c.fieldNames.contains a.1 && (lookup a.1 c.constants).isNone && !a.2.isNone
+
+/-- the arguments `from_other_class(mapping)` hands to the constructor: EVERY field name that is
+    not a Constant, with `mapping.get(name)` — `None` for an absent key -/
+def mappingArgs (c : ClassDef) (kw : List (String × PyVal)) : List (String × PyVal) :=
+  (c.fieldNames.filter fun n => (lookup n c.constants).isNone).map fun n => (n, (lookup n kw).getD .none)
+
+/-- an instance of the class through any entry point.  Every one of them runs
+    `AbstractStructure.__init__` first (the trusted ones through `obj.__init__(**kwargs)` with the
+    trust flag set), so an abstract class is refused everywhere; the trusted entries then store the
+    values as supplied. -/
+def instantiateVia (O : Oracles) (c : ClassDef) (reqOrder : List String) (e : Entry)
+    (kw : List (String × PyVal)) : R PyVal :=
+  if c.isAbstract then .error .typeErr
+  else match e with
+    | .ctor => instantiateOrd O c reqOrder kw
+    | .fromOther => instantiateOrd O c reqOrder (mappingArgs c kw)
+    | .castTo => instantiateOrd O c reqOrder (fieldArgs c kw)
+    | _ => .ok (.inst c.name kw)
 
 /-- `inst.name = v` on a fresh instance: class-level None handling, then the field's validation -/
 def assignField (O : Oracles) (c : ClassDef) (name : String) (v : PyVal) : R (Option PyVal) :=
